@@ -318,6 +318,46 @@ class Rig:
             self.audio._actor_ref = real_ref
         self.volume_element = self.elements["volume"]
 
+    def mixer_apply(self, op):
+        """One software-mixer operation (see coq/Audio/Mixer.v `mop`); returns its observation."""
+        import math
+
+        self._events.clear()
+        ret = ("none",)
+        k = op[0]
+        try:
+            if k == "setup":
+                if not hasattr(self, "volume_element"):
+                    self.attach_mixer()      # the real Audio._setup_audio_sink path
+                else:                        # re-attach after a teardown: adapter.setup again
+                    self.audio.mixer.setup(self.volume_element, SyncProxy(self.audio.mixer))
+            elif k == "teardown":
+                self.audio.mixer.teardown()
+            elif k == "setvol":
+                ret = ("bool", self.sw_mixer.set_volume(op[1]))
+            elif k == "getvol":
+                ret = ("vol", self.sw_mixer.get_volume())
+            elif k == "setmute":
+                ret = ("bool", self.sw_mixer.set_mute(op[1]))
+            elif k == "getmute":
+                ret = ("mute", self.sw_mixer.get_mute())
+            elif k == "track":
+                self.audio.set_uri(uri_of(0))
+            else:
+                raise ValueError(op)
+        except AssertionError:
+            ret = ("assert",)
+        evs = [(name, dict(kwargs)) for cls, name, kwargs, _ in self._events if cls == "MixerListener"]
+        el = getattr(self, "volume_element", None)
+        x = el.props["volume"] if el is not None else 1.0
+        mute = el.props["mute"] if el is not None else False
+        if x == 0:
+            dec = (0, -2154)
+        else:
+            fm, fe = math.frexp(x)
+            dec = (int(fm * 2 ** 53), fe - 53)
+        return {"ret": ret, "events": evs, "vol": dec, "vol_float": x, "mute": mute}
+
     def close(self):
         self._listener_mod.send = self._orig_send
         if self._orig_factory is None:
